@@ -60,19 +60,30 @@ def _param_named(f: FunctionInfo, cands: tuple[str, ...]) -> Optional[str]:
 def rule_r2(ctx: Ctx) -> None:
     prog = ctx.prog
     targets: list[tuple[FunctionInfo, str, Optional[str]]] = []
-    parallel: list[FunctionInfo] = []
+    parallel: list[tuple[Any, FunctionInfo]] = []
+    from ..frontend import is_stub
+
+    def overrides_hook(c, f: FunctionInfo) -> bool:
+        """does class c (inheriting f) override a method that f calls on self?"""
+        for x in walk_local(f.node):
+            if isinstance(x, ast.Call) and isinstance(x.func, ast.Attribute) and is_self_attr(x.func):
+                a, b = prog.lookup_method(c, x.func.attr), prog.lookup_method(f.cls, x.func.attr) if f.cls else None
+                if a is not None and b is not None and a is not b:
+                    return True
+        return False
+
     for c in prog.subclasses(STEP, strict=False):
         for mname in ("iterate", "apply"):
-            f = c.methods.get(mname)
-            if f is None or "target_size" not in f.params:
+            f = prog.lookup_method(c, mname)
+            if f is None or "target_size" not in f.params or is_stub(f.node):
                 continue
-            from ..frontend import is_stub
-            if is_stub(f.node):
-                continue
+            if f.cls is not c and not overrides_hook(c, f):
+                continue   # inherited unchanged: analysed with the class that defines it
             if _range_loops(f):
-                parallel.append(f)
+                parallel.append((c, f))
                 continue
-            targets.append((f, "target_size", _param_named(f, ("population",))))
+            if f.cls is c:
+                targets.append((f, "target_size", _param_named(f, ("population",))))
     for c in prog.subclasses(INITIALIZER):
         f = c.methods.get("initialize")
         if f is not None and "target_size" in f.params:
@@ -83,6 +94,10 @@ def rule_r2(ctx: Ctx) -> None:
             ctx.accept("C15.R2", f.loc(), ALLOW_SIZE[f.fullname])
             continue
         yc = YieldCounter(f, kname, pname)
+        from ..inline import make_inline_hook
+        ih = make_inline_hook(prog, f.cls, f.module, skip=("apply", "iterate", "initialize", "compute_ranges"))
+        yc.hooks.append(ih)
+        yc.assume_hooks.append(ih.assume)
         states = yc.run()
         if not states:
             ctx.ob("C15.R2", f, f.node, "yield count", None, "no terminating path found")
@@ -109,9 +124,9 @@ def rule_r2(ctx: Ctx) -> None:
     ctx.floor("C15.R2p", len(cr_impls), 1, "compute_ranges implementations")
     for f in cr_impls:
         check_compute_ranges(ctx, f)
-    ctx.floor("C15.R2p", len(parallel), 3, "steps with a per-slice (start, end) loop")
-    for f in parallel:
-        check_parallel_iterate(ctx, f)
+    ctx.floor("C15.R2p", len(parallel), 3, "step classes with a per-slice (start, end) loop")
+    for c, f in parallel:
+        check_parallel_iterate(ctx, f, c)
 
 
 def _range_loops(f: FunctionInfo) -> list[ast.For]:
@@ -142,113 +157,63 @@ def check_compute_ranges(ctx: Ctx, f: FunctionInfo, ranges_var: Optional[ast.Nam
                              f"searches, an adaptive population size) is served the old boundaries and yields the old number of individuals")
         if not ok:
             return
-    rets = [r for r in walk_local(f.node) if isinstance(r, ast.Return) and r.value is not None]
-    if ranges_var is not None:
-        rets = [ast.copy_location(ast.Return(value=ranges_var), ranges_var)]
-    if len(rets) != 1:
-        ctx.ob("C15.R2p", f, f.node, "single return of the ranges", None, f"{len(rets)} returns")
-        return
-    rv = rets[0].value
+    # ---- list-shape abstract interpretation of the boundary construction (sa/listshape.py)
+    from ..listshape import AList, APairs, ShapeInterp
+    facts = Facts()
+    kk = Lin.sym("k")
+    facts.ints.add("k")
+    facts.add_ge(kk, Lin.c(1))
+    env = Env(facts)
+    env.vars[k] = kk
 
-    def resolve_name(e: ast.AST) -> ast.AST:
-        if isinstance(e, ast.Name):
-            ds = [a for a in body if isinstance(a, ast.Assign) and any(isinstance(t, ast.Name) and t.id == e.id for t in a.targets)]
-            if len(ds) == 1:
-                return ds[0].value
-        return e
+    def nonneg_elt(e: ast.AST) -> bool:
+        """a share: built from the weights, len(), sum(), non-negative constants with * / + int() round() only"""
+        for x in ast.walk(e):
+            if isinstance(x, ast.BinOp) and not isinstance(x.op, (ast.Mult, ast.Div, ast.Add, ast.FloorDiv)):
+                return False
+            if isinstance(x, ast.UnaryOp):
+                return False
+            if isinstance(x, ast.Call) and call_name(x) not in ("int", "round", "len", "sum", "float"):
+                return False
+            if isinstance(x, ast.Constant) and isinstance(x.value, (int, float)) and x.value < 0:
+                return False
+        return True
 
-    rv0 = rv
-    rname = rv.id if isinstance(rv, ast.Name) else None
-    rv = resolve_name(rv)
-    if isinstance(rv, ast.Call) and call_name(rv) == "list" and rv.args:
-        rv = rv.args[0]
-    ok_pairs = isinstance(rv, ast.Call) and call_name(rv) == "zip" and len(rv.args) == 2 and isinstance(rv.args[0], ast.Name) \
-        and isinstance(rv.args[1], ast.Subscript) and isinstance(rv.args[1].value, ast.Name) \
-        and rv.args[1].value.id == rv.args[0].id and isinstance(rv.args[1].slice, ast.Slice) \
-        and isinstance(rv.args[1].slice.lower, ast.Constant) and rv.args[1].slice.lower.value == 1 \
-        and rv.args[1].slice.upper is None
-    ctx.ob("C15.R2p", f, rets[0], "ranges are consecutive pairs zip(b, b[1:]) of one boundary list", ok_pairs,
-           "" if ok_pairs else "the ranges are not consecutive pairs of a single boundary list: they need not be contiguous")
-    if not ok_pairs:
+    si = ShapeInterp(ctx.prog, f, facts, env, nonneg_elt)
+    si.run()
+    res = si.lists.get(ranges_var.id) if ranges_var is not None else si.returned
+    anchor = f.node
+    if not isinstance(res, APairs):
+        und = isinstance(res, AList) and not res.known or res is None or si.notes
+        ctx.ob("C15.R2p", f, anchor, "ranges are consecutive pairs of one boundary list", None if und else False,
+               (getattr(res, "why", "") or "; ".join(si.notes) or "the value returned is not followed") if und else
+               "the ranges are not consecutive pairs of a single boundary list: they need not be contiguous")
         return
-    bname = rv.args[0].id
-    bdefs = [a for a in body if isinstance(a, ast.Assign) and any(isinstance(t, ast.Name) and t.id == bname for t in a.targets)]
-    if len(bdefs) != 1:
-        ctx.ob("C15.R2p", f, f.node, f"boundary list '{bname}' defined once", None, f"{len(bdefs)} definitions")
-        return
-    bv = bdefs[0].value
-    starts0 = isinstance(bv, ast.BinOp) and isinstance(bv.op, ast.Add) and isinstance(bv.left, ast.List) \
-        and len(bv.left.elts) == 1 and isinstance(bv.left.elts[0], ast.Constant) and bv.left.elts[0].value == 0
-    ctx.ob("C15.R2p", f, bdefs[0], "boundaries start at 0", starts0, "" if starts0 else "the first boundary is not 0")
-    rest = bv.right if starts0 else bv
-    clamped = False
-    src = rest
-    if isinstance(rest, ast.ListComp) and len(rest.generators) == 1 and not rest.generators[0].ifs:
-        e = rest.elt
-        if isinstance(e, ast.Call) and call_name(e) == "min" and len(e.args) == 2:
-            names = [a.id for a in e.args if isinstance(a, ast.Name)]
-            tvar = rest.generators[0].target.id if isinstance(rest.generators[0].target, ast.Name) else None
-            clamped = k in names and tvar in names
-        src = rest.generators[0].iter
-    ctx.ob("C15.R2p", f, bdefs[0], "every boundary is clamped to target_size", clamped,
-           "" if clamped else "cumulative rounded shares are used as boundaries unclamped: an intermediate boundary can "
-                              "exceed target_size, later slices become negative and are skipped, and more than "
-                              "target_size individuals are produced (e.g. 4 equal weights, 6 individuals -> 8)")
-    src = resolve_name(src)
-    mono = isinstance(src, ast.Call) and call_name(src) == "cumsum"
-    ctx.ob("C15.R2p", f, bdefs[0], "boundaries are a running sum (non-decreasing for non-negative weights)", mono,
-           "" if mono else "boundaries are not produced by the running sum helper")
-    # last boundary == target_size, unconditionally, after the definition
-    idx = body.index(bdefs[0])
-    last_ok = False
-    why = "the last boundary is not set to target_size"
-    for st in body[idx + 1:]:
-        if isinstance(st, ast.Assign) and len(st.targets) == 1 and isinstance(st.targets[0], ast.Subscript) \
-                and isinstance(st.targets[0].value, ast.Name) and st.targets[0].value.id == bname:
-            sl = st.targets[0].slice
-            is_last = isinstance(sl, ast.UnaryOp) and isinstance(sl.op, ast.USub) and isinstance(sl.operand, ast.Constant) \
-                and sl.operand.value == 1
-            if is_last and isinstance(st.value, ast.Name) and st.value.id == k:
-                last_ok = True
-    # patches applied to the ranges list instead (pre-fix form): must be unconditional and set (x, target_size)
-    for st in walk_local(f.node):
-        if isinstance(st, ast.Assign) and len(st.targets) == 1 and isinstance(st.targets[0], ast.Subscript) \
-                and isinstance(st.targets[0].value, ast.Name) and rname and st.targets[0].value.id == rname:
-            g = guards(st, stop=f.node)
-            if g:
-                why = f"the last slice is patched to end at target_size only when '{norm(g[0][0])}': otherwise the " \
-                      f"shares decide the total"
-            elif isinstance(st.value, ast.Tuple) and len(st.value.elts) == 2 and isinstance(st.value.elts[1], ast.Name) \
-                    and st.value.elts[1].id == k:
-                last_ok = True
-    ctx.ob("C15.R2p", f, bdefs[0], "the last boundary is exactly target_size on every path", last_ok, "" if last_ok else why)
-    # cumsum really is a running sum
-    cs = ctx.prog.lookup_method(f.cls, "cumsum") if f.cls else None
-    if cs is not None:
-        okc = False
-        loops = [l for l in walk_local(cs.node) if isinstance(l, ast.For)]
-        if len(loops) == 1:
-            l = loops[0]
-            acc = [a for a in l.body if isinstance(a, (ast.Assign, ast.AugAssign))]
-            app = [x for b_ in l.body for x in ast.walk(b_) if isinstance(x, ast.Call) and call_name(x) == "append"]
-            if len(acc) == 1 and len(app) == 1 and isinstance(l.target, ast.Name):
-                a = acc[0]
-                tname = a.targets[0].id if isinstance(a, ast.Assign) and isinstance(a.targets[0], ast.Name) else \
-                    a.target.id if isinstance(a, ast.AugAssign) and isinstance(a.target, ast.Name) else None
-                if isinstance(a, ast.Assign):
-                    v = a.value
-                    okc = isinstance(v, ast.BinOp) and isinstance(v.op, ast.Add) and \
-                        {getattr(v.left, "id", None), getattr(v.right, "id", None)} == {tname, l.target.id}
-                else:
-                    okc = isinstance(a.op, ast.Add) and isinstance(a.value, ast.Name) and a.value.id == l.target.id
-                okc = okc and isinstance(app[0].args[0], ast.Name) and app[0].args[0].id == tname
-        ctx.ob("C15.R2p", cs, cs.node, "cumsum appends the running sum of its input", okc,
-               "" if okc else "cumsum is not a plain running sum: boundaries need not be non-decreasing")
+    ctx.ob("C15.R2p", f, anchor, "ranges are consecutive pairs of one boundary list", True, "")
+    b = res.base
+    zero = Lin.c(0)
+
+    def tri(cond_true: bool, definite: bool) -> Optional[bool]:
+        return True if cond_true else (False if definite else None)
+
+    ctx.ob("C15.R2p", f, anchor, "boundaries start at 0", tri(b.first == zero, b.known and b.first is not None or b.known),
+           "" if b.first == zero else (f"the first boundary is {b.first!r}, not 0" if b.first is not None else
+                                       (b.why or "the first boundary is not known to be 0")))
+    ctx.ob("C15.R2p", f, anchor, "the last boundary is exactly target_size on every path", tri(b.last == kk, b.known),
+           "" if b.last == kk else (f"the last boundary is {b.last!r}, not target_size" if b.last is not None else
+                                    (b.why or "the last boundary is not set to target_size") + ": the shares decide the total"))
+    chain_ok = b.mono and b.last == kk
+    ctx.ob("C15.R2p", f, anchor, "boundaries form a non-decreasing chain that never passes target_size", tri(chain_ok, b.known),
+           "" if chain_ok else (f"{b.why or 'the boundaries are not known to be ordered'}: cumulative rounded shares used as boundaries "
+                                f"unclamped can exceed target_size, later slices become negative and are skipped, and more than "
+                                f"target_size individuals are produced (e.g. 4 equal weights, 6 individuals -> 8)"))
     ctx.assumptions.append("weights are non-negative (stated in the property), so rounded shares are >= 0")
 
 
-def check_parallel_iterate(ctx: Ctx, f: FunctionInfo) -> None:
+def check_parallel_iterate(ctx: Ctx, f: FunctionInfo, cls=None) -> None:
     k = "target_size"
+    cls = cls or f.cls
+    who = f"{cls.name}: " if cls is not None and cls is not f.cls else ""
     calls = [c for c in walk_local(f.node) if isinstance(c, ast.Call) and call_name(c) == "compute_ranges"]
     for c in calls:
         ok = len(c.args) >= 2 and isinstance(c.args[1], ast.Name) and c.args[1].id == k
@@ -272,6 +237,10 @@ def check_parallel_iterate(ctx: Ctx, f: FunctionInfo) -> None:
     S, E = Lin.sym("start"), Lin.sym("end")
     fa.ints |= {"start", "end"}
     env = Env(fa)
+    from ..inline import make_inline_hook
+    ih = make_inline_hook(ctx.prog, cls, f.module, skip=("apply", "iterate", "compute_ranges"))
+    env.hooks.append(ih)
+    env.assume_hooks.append(ih.assume)
     env.vars[s_name], env.vars[e_name] = S, E
     env.vars[k] = Lin.sym("k")
     st0 = YState(env, Lin.c(0))
@@ -280,7 +249,7 @@ def check_parallel_iterate(ctx: Ctx, f: FunctionInfo) -> None:
         want = E - S
         cond = "; ".join(st.conds) or "unguarded"
         if isinstance(st.count, Opaque):
-            ctx.ob("C15.R2p", f, loop, f"slice [{cond}] yields end-start", None, st.count.why)
+            ctx.ob("C15.R2p", f, loop, f"{who}slice [{cond}] yields end-start", None, st.count.why)
             continue
         d = st.count - want
         fx = st.env.facts
@@ -290,7 +259,7 @@ def check_parallel_iterate(ctx: Ctx, f: FunctionInfo) -> None:
             ok, why = True, ""  # skipped slice is empty (boundaries are non-decreasing: end-start = 0)
         else:
             ok, why = False, f"a slice of size end-start produces {st.count!r} individuals"
-        ctx.ob("C15.R2p", f, loop, f"slice [{cond}] contributes end-start", ok, why)
+        ctx.ob("C15.R2p", f, loop, f"{who}slice [{cond}] contributes end-start", ok, why)
     # nothing yielded outside the loop
     outside = [y for y in walk_local(f.node) if isinstance(y, (ast.Yield, ast.YieldFrom))
                and not any(a is loop for a in _anc(y))]
